@@ -1452,6 +1452,22 @@ func Run(c *hx.Ctx) error {
 			return nil
 		}
 	}
+	// column-store level compaction under crash images (known finding colstore_compaction_publishes_before_log)
+	nCS := 2
+	if thorough {
+		nCS = 12
+	}
+	if part := c.Arg("part", ""); part == "colstore" || (part == "" && c.Arg("colstore", "on") != "off") {
+		rcs := hx.NewRng(c.Seed ^ 0x636f6c73)
+		for i := 0; i < nCS; i++ {
+			if err := runColStore(c, rcs.Fork(), i, workers); err != nil {
+				return err
+			}
+		}
+		if part == "colstore" {
+			return nil
+		}
+	}
 	// the metadata the read path prunes with: audit and bounded reads
 	nMeta := 2
 	if thorough {
